@@ -702,7 +702,8 @@ class Interp:
                 val = True
             elif sh in (AW, NONE, SCALAR):
                 val = False
-        elif isinstance(core, ast.Call) and src(core.func).split('.')[-1] == 'isawaitable' and core.args:
+        elif isinstance(core, ast.Call) and src(core.func).split('.')[-1] in (
+                'isawaitable', 'is_future', 'isfuture', 'iscoroutine', 'is_coroutine') and core.args:
             sh = self.shape(st, core.args[0])
             if sh in (FLAT, NESTED, NONE, SCALAR):
                 val = False
